@@ -252,6 +252,7 @@ package dbft
 // ---- umbrella ----
 
 //@ pred rsor() = self.PreparationPayloads[self.PrimaryIndex] != nil
+//@ pred askedToLeave() = self.ChangeViewPayloads[self.MyIndex] != nil && self.ChangeViewPayloads[self.MyIndex].GetChangeView() != nil && self.ChangeViewPayloads[self.MyIndex].GetChangeView().NewViewNumber() > self.ViewNumber
 //@ pred notWatchOnly() = self.MyIndex >= 0 && !self.Config.WatchOnly()
 //@ pred hasAllTx() = len(self.TransactionHashes) == len(self.Transactions)
 //@ pred canMakeHeader() = rsor() && (!amev() || self.preBlockProcessed)
@@ -424,7 +425,7 @@ package dbft
 //@   requires ts + self.TimestampIncrement <= 18446744073709551615
 //@   use INV
 //@   ensures self.ViewNumber == view
-//@   ensures [C05,C04,C12,C02,C01] @cleanProposal cleanProposal()
+//@   ensures [C05,C04,C12,C02,C01,C11] @cleanProposal cleanProposal()
 //@   ensures [C05] @cleanHeight implies(view == 0, !self.blockProcessed && !self.preBlockProcessed && self.lastBlockTimestamp == ts)
 //@   ensures [C05] @freshFromCallbacks implies(view == 0, sametable(self.Validators, gValidators) && self.timePerBlock == gTimePerBlock
 //@        && implies(self.Config.MaxTimePerBlock != nil, self.maxTimePerBlock == gMaxTimePerBlock) && tip() && self.MyIndex == first(self.Config.GetKeyPair(self.Validators)))
@@ -548,6 +549,9 @@ package dbft
 //@   use U
 //@   use UNDECIDED
 //@   ensures [C12] @speaks implies(notWatchOnly(), gBroadcasts > old(gBroadcasts))
+// asked for any reason but a timeout, the node does ask to leave the view (it has its own request for a higher view on
+// record), unless that very request completed a quorum and moved it on
+//@   ensures [C12] @asksToLeave implies(notWatchOnly() && reason != CVTimeout && aview(), self.ViewNumber > old(self.ViewNumber) || askedToLeave())
 //@   requires [C03] @lock !locked()
 //@   ensures [C10] @arms notWatchOnly() == false || gTimerArms > old(gTimerArms)
 //@   wraps * unless aview()
@@ -648,6 +652,7 @@ package dbft
 //@   use U
 //@   use UNDECIDED
 //@   requires [C03] @lock !locked()
+//@   ensures [C12] @staysOrMoves self.ViewNumber > old(self.ViewNumber) || (self.ViewNumber == old(self.ViewNumber) && unchanged(self.ChangeViewPayloads))
 //@   loop 1: invariant 0 <= count && count <= idx && idx <= NN()
 //@   loop 1: invariant [C04] @counts count == count(j, 0, idx, self.ChangeViewPayloads[j] != nil && self.ChangeViewPayloads[j].GetChangeView().NewViewNumber() >= view)
 
@@ -664,7 +669,6 @@ package dbft
 //@   ensures [C05] @cachePurged cachePurged()
 //@   ensures [C10] @timer implies(aview(), timerOK())
 //@   requires cfgOK() && 0 <= self.rttEstimates.idx && self.rttEstimates.idx < 70
-//@   requires [C03] @noProposalYet true
 //@   requires self.lastBlockTime == tzero() && self.prepareSentTime == tzero()
 //@   requires ts + self.TimestampIncrement <= 18446744073709551615
 //@   use INV
@@ -817,6 +821,7 @@ package dbft
 //@   requires [C03] @lock !locked()
 //@   ensures implies(result, unchanged(self.PreparationPayloads, self.PrimaryIndex, self.ViewNumber, self.TransactionHashes, self.Transactions, self.CommitPayloads, self.PreCommitPayloads, self.blockProcessed))
 //@   ensures [C12] @rejectedAnswers implies(!result && notWatchOnly(), gBroadcasts > old(gBroadcasts))
+//@   ensures [C12] @rejectedAsksToLeave implies(!result && notWatchOnly() && aview(), self.ViewNumber > old(self.ViewNumber) || askedToLeave())
 //@   ensures [C04] @blockAccepted implies(result, gVerified != nil && (gVerified == self.block || gVerified == self.preBlock))
 //@ func (*DBFT).updateExistingPayloads
 //@   requires wf() && slot() && msg != nil && !rsor() && verc() && said()
